@@ -66,6 +66,17 @@ def meta_family(tag):
         steps += [{"a": "closeDown", "g": "C", "obj": "D1", "ctxMs": 3000, "wait": True}, {"a": "quiesce"},
                   {"a": "closeConn", "g": "main2", "wait": True, "ctxMs": 2000}, {"a": "quiesce", "ms": 50}]
         scs.append({"id": "%s/meta/%d" % (tag, k), "kind": "iscp", "conn": {}, "steps": steps})
+    # the same for ReadDataPoints: chunks are waiting, polls with a done context, then live reads
+    for k, (n, polls) in enumerate([(6, 14), (3, 8)]):
+        steps = [{"a": "connect", "must": True}, {"a": "openDown", "obj": "D1", "qos": "reliable", "srcs": ["n1", "n2"], "ids": ["A"], "ackFlushMs": 20, "must": True}]
+        for j in range(n):
+            steps.append({"a": "sendChunk", "obj": "D1", "up": "X", "upF": "info", "upAl": 0, "seq": j + 1, "groups": [{"f": "id", "id": "A", "al": 0, "pts": [[j + 1, 4]]}]})
+        steps.append({"a": "sleep", "ms": 30})
+        steps += [{"a": "read", "g": "R1", "obj": "D1", "ctxMs": -1, "wait": True}] * polls
+        steps += [{"a": "read", "g": "R1", "obj": "D1", "ctxMs": 300, "wait": True}] * n
+        steps += [{"a": "closeDown", "g": "C", "obj": "D1", "ctxMs": 3000, "wait": True}, {"a": "quiesce"},
+                  {"a": "closeConn", "g": "main2", "wait": True, "ctxMs": 2000}, {"a": "quiesce", "ms": 50}]
+        scs.append({"id": "%s/chunkpoll/%d" % (tag, k), "kind": "iscp", "conn": {}, "steps": steps})
     # polls with a context that is already done (or ends at once) while items are waiting: a poll returns either the context error or an
     # item - an item must never be consumed by a poll that reports an error
     for k, (n, polls, ctxms) in enumerate([(12, 30, -1), (12, 30, 1), (6, 12, -1)]):
